@@ -70,7 +70,8 @@ def rand_elem(space, g, scale=1.0, positive=False):
 # --------------------------------------------------------------------------
 
 def gen_op(rng, space_cfg, allow=('matrix', 'identity', 'scaling', 'gradient',
-                                  'matcomp', 'broadcast', 'partial')):
+                                  'matcomp', 'broadcast', 'partial',
+                                  'viewid')):
     k = space_cfg['kind']
     cands = []
     for a in allow:
@@ -97,7 +98,8 @@ def gen_op(rng, space_cfg, allow=('matrix', 'identity', 'scaling', 'gradient',
                                       'order0', 'order1', 'order2'])
         cfg['axis'] = 0
     elif kind == 'broadcast':
-        sub_allow = tuple(a for a in ('matrix', 'identity', 'scaling', 'partial')
+        sub_allow = tuple(a for a in ('matrix', 'identity', 'scaling', 'partial',
+                                      'viewid')
                           if a in allow)
         cfg['ops'] = [gen_op(rng, space_cfg, sub_allow)
                       for _ in range(rng.randint(2, 3))]
@@ -109,6 +111,14 @@ def build_op(cfg, X):
     k = cfg['kind']
     if k == 'identity':
         return o.IdentityOperator(X)
+    if k == 'viewid':
+        # the identity in the guise of an operator whose out-of-place call
+        # hands back its ARGUMENT (RealPart on a real space; its adjoint does
+        # the same): a solver must not update `L(x)` in place
+        if not isinstance(X, o.space.base_tensors.TensorSpace) or \
+                not X.is_real:
+            return o.IdentityOperator(X)
+        return o.RealPart(X)
     if k == 'scaling':
         return o.ScalingOperator(X, cfg['c'])
     if k in ('matrix', 'matcomp'):
